@@ -11,7 +11,7 @@ reg("C15", "SPDE operators, projections and solvers are mutually consistent",
          "entry point vs the harness's own product with the entries of getQ() and vs Lambda P(S) Lambda x evaluated by the harness; S "
          "invariants; symmetry / own dense Cholesky (n <= 200) / x'Qx / CholeskySparse solve + log det; ~40 projected points (strictly "
          "inside, on interior facets, on vertices, on the hull, outside near and far; optional selection and undefined Z; brute-force "
-         "point location by the harness); 1..30 data in three magnitude classes, optional masked / undefined samples, optional nugget, "
+         "point location by the harness); 1..30 data (inside, on vertices, outside the mesh, in any order) in three magnitude classes, optional masked / undefined samples, optional nugget, "
          "1 or 2 structures -> PrecisionOpMultiConditional(Cs) rhs / product / solves / quadratic form / log det, SPDEOp(Matrix) "
          "product, krigingSPDE, krigingSPDENew, logLikelihoodSPDE with useCholesky = 1 and 0 vs an own dense long-double solution of "
          "(Q + A'A/s2) x = A'z/s2 when the system has <= 130 unknowns (quick). 4 % of the cases = krigingSPDENew on a target Db "
@@ -21,10 +21,12 @@ reg("C15", "SPDE operators, projections and solvers are mutually consistent",
     require=dict(distinct=60,
                  oracles=dict(quick={"matfree-evalDirect": 3000, "Q-vs-formula": 1500, "Q-symmetric": 250, "Q-posdef-chol": 150,
                                      "cholsparse-succeeds": 250, "solve-residual-chol": 700, "proj-affine": 6000, "proj-outside-empty": 800,
-                                     "solve-residual-cg": 200, "krig-cg-vs-ref": 100, "krig-chol-vs-ref": 100, "loglik-chol-vs-ref": 100},
+                                     "solve-residual-cg": 200, "krig-cg-vs-ref": 100, "krig-chol-vs-ref": 100, "loglik-chol-vs-ref": 100,
+                                     "krignew-cg-vs-ref": 80, "spdeop-evalDirect": 300},
                               thorough={"matfree-evalDirect": 9000, "Q-vs-formula": 4500, "Q-symmetric": 750, "Q-posdef-chol": 400,
                                         "cholsparse-succeeds": 750, "solve-residual-chol": 2100, "proj-affine": 18000, "proj-outside-empty": 1800,
-                                        "solve-residual-cg": 600, "krig-cg-vs-ref": 250, "krig-chol-vs-ref": 250, "loglik-chol-vs-ref": 250})),
+                                        "solve-residual-cg": 600, "krig-cg-vs-ref": 250, "krig-chol-vs-ref": 250, "loglik-chol-vs-ref": 250,
+                                        "krignew-cg-vs-ref": 200, "spdeop-evalDirect": 800})),
     assumptions=["the entries of Q, S, the projection matrices and Lambda / TildeC are read through MatrixSparse::getMatrixToTriplet, "
                  "getLambdas, getTildeC and trusted as the library's statement of those objects; products, Cholesky factors, solves and "
                  "eigenvalues used as references are computed by the harness in long double",
